@@ -23,7 +23,7 @@ SPEC = {
              "a configuration is non-trivial when it registers >= 1 handler; distinct = distinct configuration hashes."),
     "assumptions": ["reference AVM (vlib/avm.py) semantics", "model: bare iff NumAppArgs==0; method iff arg0 == selector and config allows"],
     "min_evaluations": {"quick": 20000, "thorough": 200000},
-    "must_reach": ["handler_ran_ok", "rejected_ok", "clear_ok", "kind_expr", "kind_sub", "kind_abisub"],
+    "must_reach": ["handler_ran_ok", "rejected_ok", "clear_ok", "kind_expr", "kind_sub", "kind_abisub", "selector_collision_refused"],
     "shard_timeout": {"quick": 2400, "thorough": 14400},
 }
 
@@ -46,7 +46,9 @@ def gen_config(rng):
             cfg = {oc: rng.choice(["NEVER", "NEVER", "CALL", "CREATE", "ALL"]) for oc in OCS}
             if any(c != "NEVER" for c in cfg.values()):
                 break
-        methods.append({"name": "m%d" % m, "cfg": cfg, "nargs": rng.choice([0, 0, 1])})
+        # alias: the handler object has already been looked at / registered elsewhere under its own function name before it is
+        # registered here under an overriding name (1: in another router, 2: its method_signature() was read)
+        methods.append({"name": "m%d" % m, "cfg": cfg, "nargs": rng.choice([0, 0, 1]), "alias": rng.choice([0, 0, 0, 1, 2])})
     kinds = {}
     for tag in ["B_" + oc for oc in OCS] + ["CLEAR"] + ["M_" + m["name"] for m in methods]:
         kinds[tag] = rng.choice(["expr", "expr_approve", "sub", "abisub"])
@@ -112,7 +114,17 @@ def build_router(pt, cfg):
         name = m["name"]
         f = mk_method(name, m["nargs"])
         sig = name + ("()void" if m["nargs"] == 0 else "(uint64)void")
-        r.add_method_handler(pt.ABIReturnSubroutine(f), method_config=pt.MethodConfig(**{oc: getattr(CCs, cc) for oc, cc in m["cfg"].items()}))
+        mc = pt.MethodConfig(**{oc: getattr(CCs, cc) for oc, cc in m["cfg"].items()})
+        if m.get("alias"):
+            f.__name__ = "orig_" + name
+            hdl = pt.ABIReturnSubroutine(f)
+            if m["alias"] == 1:
+                pt.Router("elsewhere", pt.BareCallActions()).add_method_handler(hdl)
+            else:
+                hdl.method_signature()
+            r.add_method_handler(hdl, overriding_name=name, method_config=mc)
+        else:
+            r.add_method_handler(pt.ABIReturnSubroutine(f), method_config=mc)
         sels[name] = hashlib.new("sha512_256", sig.encode()).digest()[:4]
     return r, sels
 
@@ -196,17 +208,91 @@ def check_config(pt, acc, cfg, only_call=None):
                 "kinds": cfg["kinds"], "versions": cfg["versions"]}, cap=3)
 
 
+_COLLISIONS = {}
+
+
+def colliding_signatures(stem):
+    """Pairs of distinct ARC-4 signatures with the same 4-byte selector, found by a birthday search (~200k hashes)."""
+    if stem not in _COLLISIONS:
+        seen, pairs = {}, []
+        for i in range(260000):
+            sig = "%s%d()void" % (stem, i)
+            sel = hashlib.new("sha512_256", sig.encode()).digest()[:4]
+            if sel in seen:
+                pairs.append((seen[sel], sig))
+                if len(pairs) >= 4:
+                    break
+            else:
+                seen[sel] = sig
+        _COLLISIONS[stem] = pairs
+    return _COLLISIONS[stem]
+
+
+def collision_probe(pt, acc, rng, stem=None, overlapping=None):
+    """Two different methods whose selectors collide cannot both be dispatched by selector.  With overlapping MethodConfigs the
+    registration has to be refused; with disjoint ones it may be refused, or else each call has to reach the method whose
+    configuration allows it."""
+    from ..common import PT_ERRORS, reset_globals
+    reset_globals()
+    stem = stem or rng.choice(["pay_out", "stake", "claim", "vote", "f", "swap_exact"])
+    overlapping = rng.random() < .5 if overlapping is None else overlapping
+    pairs = colliding_signatures(stem)
+    if not pairs:
+        acc.counters["collision_search_empty"] += 1
+        return
+    a, b = rng.choice(pairs)
+    if rng.random() < .5:
+        a, b = b, a
+    case = {"probe": "collision", "stem": stem, "overlapping": overlapping, "signatures": [a, b]}
+    acc.evaluations += 1
+    CCs = pt.CallConfig
+
+    def handler(sig):
+        def f():
+            return pt.Log(pt.Bytes("H:" + sig))
+        f.__name__ = sig.split("(")[0]
+        return pt.ABIReturnSubroutine(f)
+    r = pt.Router("c", pt.BareCallActions(), clear_state=pt.Approve())
+    cfg_a = pt.MethodConfig(no_op=CCs.CALL)
+    cfg_b = pt.MethodConfig(no_op=CCs.CALL, opt_in=CCs.CALL) if overlapping else pt.MethodConfig(opt_in=CCs.CALL)
+    try:
+        r.add_method_handler(handler(a), method_config=cfg_a)
+        r.add_method_handler(handler(b), method_config=cfg_b)
+        ap, _, _ = r.compile_program(version=rng.choice([6, 8, 10]))
+    except PT_ERRORS:
+        acc.counters["selector_collision_refused"] += 1
+        return
+    if overlapping:
+        acc.violation("selector_collision_accepted", case, "%s and %s share selector %s and both allow NoOp calls, yet both were registered"
+                      % (a, b, hashlib.new("sha512_256", a.encode()).digest()[:4].hex()))
+        return
+    sel = hashlib.new("sha512_256", a.encode()).digest()[:4]
+    prog = avm.parse_any(ap)
+    for oc, want in ((0, "H:" + a), (1, "H:" + b)):
+        res = avm.run(prog, avm.Ctx(group=[{"ApplicationArgs": [sel], "OnCompletion": oc, "ApplicationID": 77, "TypeEnum": 6}]))
+        got = [l.decode("latin1") for l in res.logs]
+        if res.status != "approve" or got != [want]:
+            acc.violation("selector_collision_misdispatch", dict(case, on_completion=oc), "call with the shared selector and OnCompletion %d: status %s, handlers %r, registration allows exactly %r" % (oc, res.status, got, want))
+            return
+    acc.counters["selector_collision_dispatched"] += 1
+
+
 def run_shard(shard):
     import pyteal as pt
     from ..common import Acc, rng_for
     acc = Acc()
     if "replay" in shard:
         c = shard["replay"]
+        if c.get("probe") == "collision":
+            collision_probe(pt, acc, rng_for(0, "replay"), c["stem"], c["overlapping"])
+            return acc.result()
         check_config(pt, acc, c["config"], c.get("call"))
         return acc.result()
     rng = rng_for(shard["seed"], "c08", shard["shard"])
     for _ in range(shard["n"]):
         check_config(pt, acc, gen_config(rng))
+    for _ in range(6):
+        collision_probe(pt, acc, rng)
     if shard["tier"] == "thorough":
         # all 1023 non-never MethodConfigs of a single method, split across shards
         allcfg = [c for c in itertools.product(CC, repeat=5) if any(x != "NEVER" for x in c)]
